@@ -8,7 +8,7 @@ from impl import trees, transform, treeoutput, quiet, clone, tag_uids
 from props.c04 import HEADS
 
 ID = "C05"
-MODULE = ['TT.Props.C05', 'TT.Props.C05More', 'TT.Props.C05Split']
+MODULE = ['TT.Props.C05', 'TT.Props.C05More', 'TT.Props.C05Split', 'TT.Props.C05More2']
 RULE = ("random well-formed trees (2..11 tokens, discontinuity probability 0.2..0.7, unary nodes) + all shapes up to "
         "4 (quick) / 5 (thorough) tokens x all head-edge assignments drawn at random; pipeline [root_attach] ; head "
         "marking ; boyd_split ; raising compared with the one-pass reference contSpec; boyd_split alone against the "
